@@ -38,7 +38,7 @@ try:
         shutil.copy(os.path.join(src, d), os.path.join(wt, d))
         tests += re.findall(r"^func (Test\w+)\(", open(os.path.join(src, d)).read(), re.M)
     runre = "^(%s)$" % "|".join(tests) if tests else "."
-    democmd = "go test -vet=off -count=1 -run '%s' %s" % (runre, " ".join(pkgs))
+    democmd = "go test -tags verif -vet=off -count=1 -run '%s' %s" % (runre, " ".join(pkgs))
     meta["demo_cmd"] = democmd
     rc0, out0 = sh(democmd, cwd=wt)
     meta["demo_without_change"] = "pass" if rc0 == 0 else "FAIL"
